@@ -100,7 +100,7 @@ fn step(inp: &[u8], mode: u8, slen16: bool) -> Option<bool> {
     }
 }
 
-//@ harness name=bc_expand_key_w prop=C14,C20 tier=quick bits=33928 stub=1 est=300 desc="W: bc_expand_key(key[..klen]) from an arbitrary pre-state == Schneier's key expansion from that state (= ordinary Blowfish keying when the pre-state is bc_init_state), klen symbolic 1..=72 (only the first 72 bytes of the cycled key are ever used), co-routine stub: arguments, P array and newest stored pair compared at each of the 521 calls, full state at calls 0/9/137/265/393 and at the end"
+//@ harness name=bc_expand_key_w prop=C14,C20 tier=thorough bits=33928 stub=1 est=1500 mem=30 desc="W: bc_expand_key(key[..klen]) from an arbitrary pre-state == Schneier's key expansion from that state (= ordinary Blowfish keying when the pre-state is bc_init_state), klen symbolic 1..=72 (only the first 72 bytes of the cycled key are ever used), co-routine stub: arguments, P array and newest stored pair compared at each of the 521 calls, full state at calls 0/9/137/265/393 and at the end"
 verif_harness! {
     name: bc_expand_key_w,
     bytes: STATE + 90,
@@ -109,7 +109,7 @@ verif_harness! {
     prop: |inp| { step(inp, PLAIN_VS_PLAIN, true) }
 }
 
-//@ harness name=bc_salted_w prop=C14,C20 tier=quick bits=34056 stub=1 est=400 desc="W: salted_expand_key(salt, key[..klen]) for a 16-byte salt (bcrypt's salt size) from an arbitrary pre-state == eksblowfish ExpandKey(state, salt, key): P ^= cycled key, then each of the 521 blocks = Enc(previous block ^ next 64 bits of the cycled salt) stored in order; all salt bytes, klen symbolic 1..=72, co-routine stub (checks as bc_expand_key_w)"
+//@ harness name=bc_salted_w prop=C14,C20 tier=thorough bits=34056 stub=1 est=1500 mem=30 desc="W: salted_expand_key(salt, key[..klen]) for a 16-byte salt (bcrypt's salt size) from an arbitrary pre-state == eksblowfish ExpandKey(state, salt, key): P ^= cycled key, then each of the 521 blocks = Enc(previous block ^ next 64 bits of the cycled salt) stored in order; all salt bytes, klen symbolic 1..=72, co-routine stub (checks as bc_expand_key_w)"
 verif_harness! {
     name: bc_salted_w,
     bytes: STATE + 90,
@@ -118,7 +118,7 @@ verif_harness! {
     prop: |inp| { step(inp, SALTED_VS_EKS, true) }
 }
 
-//@ harness name=bc_zero_salt_w prop=C14 tier=quick bits=33920 stub=1 est=400 desc="W: salted_expand_key(16 zero bytes, key) from an arbitrary pre-state == Schneier's (unsalted) expansion == bc_expand_key (by bc_expand_key_w), klen symbolic 1..=72"
+//@ harness name=bc_zero_salt_w prop=C14 tier=thorough bits=33920 stub=1 est=1500 mem=30 desc="W: salted_expand_key(16 zero bytes, key) from an arbitrary pre-state == Schneier's (unsalted) expansion == bc_expand_key (by bc_expand_key_w), klen symbolic 1..=72"
 verif_harness! {
     name: bc_zero_salt_w,
     bytes: STATE + 90,
